@@ -1276,6 +1276,66 @@ def check_c14(tier):
     return 1 if viol else 0
 
 
+# ----------------------------------------------------------------------------------------- E8 number engine (C20, partial)
+def check_c20(tier):
+    t0 = time.time()
+    build()
+    run = os.path.join(WORK, "E8-" + tier)
+    shutil.rmtree(run, ignore_errors=True)
+    shutil.copytree(os.path.join(ROOT, "spec", "numbers"), run)
+    tool_errors = []
+    maxlen = 4 if tier == "quick" else 5
+    for mode in ("gen", "judge"):
+        open(os.path.join(run, "num_%s.cfg" % mode), "w").write("SPECIFICATION Spec\nCHECK_DEADLOCK FALSE\nCONSTANTS\n  Mode = \"%s\"\n  MaxLen = %d\n" % (mode, maxlen))
+    inp = os.path.join(run, "in.ndjson")
+    g = tlc_lines(run, "Numbers.tla", "num_gen.cfg", "I", inp, workers=8)
+    if g["rc"] != 0 or g["n"] == 0:
+        tool_errors.append("Numbers gen rc=%s n=%s %s" % (g["rc"], g["n"], g["errors"][:2]))
+    out = os.path.join(run, "res.ndjson")
+    sh([VH, "numbers", "--in", inp, "--out", out], timeout=3600)
+    j = run_tlc(run, "Numbers.tla", "num_judge.cfg", 1, 3600, env={"RESULTS": out}, tag="_judge", heap="12g")
+    if j["rc"] != 0:
+        tool_errors.append("Numbers judge rc=%s %s" % (j["rc"], j["errors"][:2]))
+    verdicts = [json.loads(decode_tagged(l)[1][0]) for l in j["tagged"] if l.startswith('<<"V"')]
+    kf = [f for f in known_findings().get("findings", []) if f.get("engine") == "E8"]
+    viol = 0
+    known = {}
+    for v in verdicts:
+        hit = [f for f in kf if f.get("pred") == v["pred"] and (not f.get("text") or f["text"] == v["r"]["text"])]
+        if hit:
+            known[hit[0]["id"]] = hit[0]
+            continue
+        viol += 1
+        if viol <= 20:
+            dd = os.path.join(WORK, "replays")
+            os.makedirs(dd, exist_ok=True)
+            path = os.path.join(dd, "C20-%d.json" % viol)
+            json.dump({"property": "C20", "engine": "E8", "predicate": v["pred"], "text": v["r"]["text"]}, open(path, "w"))
+            print("VIOLATION property=C20 replay=%s" % path)
+            log("   %s fails for the text %r: expected %s, got %s %s" % (v["pred"], v["r"]["text"], v["r"].get("exp"), v["r"].get("got"), v["r"].get("fgot")))
+    for fid, f in known.items():
+        print("KNOWN-FINDING: property=C20 %s" % f["what"])
+    nrec = sum(1 for _ in open(out))
+    inform = sum(1 for l in open(out) if '"inform":true' in l)
+    samples = []
+    with open(out) as f:
+        for i, l in enumerate(f):
+            r = json.loads(l)
+            if r["inform"] and len(samples) < 5 and i % 701 == 3:
+                samples.append({"text": r["text"], "u8": r["got"].get("u8"), "i16": r["got"].get("i16"), "float": r["fgot"]})
+    ev = {"property_id": "C20", "tier": tier, "seed": seed(), "level": "exploration",
+          "coverage": {"evaluations": nrec, "distinct_nontrivial": inform, "rule": "TLC enumerates every text of up to %d symbols over the 11-symbol alphabet {0,1,7,8,9,a,f,x,b,+,-} (spec/numbers/Numbers.tla) with the value of its lexical form and whether it fits each of 8 integer widths; non-trivial = the text is in one of the AUTOSAR lexical forms; plus format->parse round trips of boundary u64 values, f64 classes and all enumeration items" % maxlen,
+                       "samples": samples or ["none"], "exhaustive": True},
+          "assumptions": ["values below 2^31 only (TLC integers); correct rounding of arbitrary decimal texts, the full u64/i64 range and overflow at 2^32 / 2^64 are not covered (DESIGN 6.20)"],
+          "wall_s": round(time.time() - t0, 2), "violations": viol}
+    os.makedirs(EVID, exist_ok=True)
+    json.dump(ev, open(os.path.join(EVID, "C20.json"), "w"), indent=1)
+    if tool_errors:
+        log("TOOL ERRORS: " + "; ".join(tool_errors[:5]))
+        return 1 if viol else 2
+    return 1 if viol else 0
+
+
 # ----------------------------------------------------------------------------------------- E7 regex engine (C19)
 def check_c19(tier):
     import regex2tla
@@ -1428,6 +1488,8 @@ def main(argv):
             return check_c07(tier)
         if prop == "C17":
             return check_c17(tier)
+        if prop == "C20":
+            return check_c20(tier)
         if prop == "C15":
             return check_c15(tier)
         if prop == "C16":
